@@ -98,6 +98,15 @@ def c14(work, tier, seed, replay):
         prod_jobs.append({"id": "pfork%d" % j, "store": "sqlfile", "sigma": SIGMAS[sg], "types": types, "partial": False,
                           "events": [{"a": "grow", "l": "l1", "b": 0, "n": 2}, {"a": "fork", "l": "l1", "b": 1, "n": 3}, {"a": "fork", "l": "l2", "b": 1, "n": 2},
                                      {"a": "restart", "l": "", "b": 0, "n": 0}, {"a": "restart", "l": "", "b": 0, "n": 0}]})
+    # the host reaches the outside through an EGRESS PROXY announced in its environment (HTTP_PROXY): the logs' URLs carry host names only the proxy
+    # resolves; every other prod schedule (and two fixed growth schedules) runs that way
+    for j, j_ in enumerate(prod_jobs):
+        if j % 2 == 1:
+            j_["proxy"] = True
+    for j, (types, sg) in enumerate(((["sumdb", "tiles"], "tile"), (["tiles", "sumdb"], "id"))):
+        prod_jobs.append({"id": "pproxy%d" % j, "store": "sqlfile", "sigma": SIGMAS[sg], "types": types, "partial": False, "proxy": True,
+                          "events": [{"a": "grow", "l": "l1", "b": 0, "n": 2}, {"a": "grow", "l": "l2", "b": 0, "n": 2}, {"a": "restart", "l": "", "b": 0, "n": 0}, {"a": "grow", "l": "l1", "b": 0, "n": 3}]})
+    rep.cov["production_binary_schedules_behind_an_egress_proxy"] = sum(1 for j_ in prod_jobs if j_.get("proxy"))
     pshards = 6 if tier == "quick" else 8
     for k in range(pshards):
         part = prod_jobs[k::pshards]
